@@ -13,7 +13,7 @@ Import ListNotations.
 (* order, exactly once, reverse unwinding, error seen by every layer above *)
 Theorem C04_onion : forall s host method path,
   let p' := fold_left apply_rewrite (s_pre s) path in
-  let t := select s host method p' in
+  let t := select s (fold_left apply_host (s_pre s) host) method p' in
   forallb passes (s_pre s) = true -> forallb passes (s_use s) = true -> forallb passes (t_chain t) = true ->
   request s host method path =
   (map Enter (ids (s_pre s)) ++ map Enter (ids (s_use s)) ++ map Enter (ids (t_chain t)) ++
@@ -31,11 +31,12 @@ Theorem C04_short_circuit : forall pre f post core c, forallb passes pre = true 
 Proof. exact onion_fail. Qed.
 Print Assumptions C04_short_circuit.
 
-(* Pre middleware runs before route selection: the route is chosen for the rewritten path *)
+(* Pre middleware runs before route selection: the route is chosen for the rewritten path, in the router of the
+   rewritten Host *)
 Theorem C04_pre_before_routing : forall s host method path, forallb passes (s_pre s) = true ->
   exists tr, request s host method path =
     run_mws (s_pre s) (run_mws (s_use s)
-      (run_mws (t_chain (select s host method (fold_left apply_rewrite (s_pre s) path))) tr)).
+      (run_mws (t_chain (select s (fold_left apply_host (s_pre s) host) method (fold_left apply_rewrite (s_pre s) path))) tr)).
 Proof. exact pre_before_routing. Qed.
 Print Assumptions C04_pre_before_routing.
 
